@@ -553,8 +553,14 @@ class Balancer:
 
         rhs_lower = claripy.Extract(shift_amount - 1, 0, rhs)
         rhs_lower_values = claripy.backends.vsa.eval(rhs_lower, 2)
-        if len(rhs_lower_values) == 1 and rhs_lower_values[0] == 0:
-            # we can remove the __lshift__
+        expr_upper = claripy.Extract(len(expr) - 1, len(expr) - shift_amount, expr)
+        if (
+            len(rhs_lower_values) == 1
+            and rhs_lower_values[0] == 0
+            and claripy.backends.vsa.is_true(expr_upper == 0)
+        ):
+            # we can remove the __lshift__: no set bit of expr is shifted out, and the bits shifted in are zero on
+            # both sides
 
             return Bool(truism.op, (expr, rhs >> shift_amount))
 
